@@ -330,12 +330,12 @@ func (tm *TypeMap) StrLit(s string) *Term {
 	name := fmt.Sprintf("strlit_%x", s)
 	if len(name) > 60 {
 		name = fmt.Sprintf("strlit_%x_%d", s[:20], len(s))
-		if _, ok := c.decls[name]; ok {
-			// disambiguate long literals by content hash
+		{
+			// disambiguate long literals by content hash (deterministic: same literal, same name)
 			h := 0
 			for _, b := range []byte(s) {
 				h = h*131 + int(b)
-				h &= 0xffffff
+				h &= 0xffffffff
 			}
 			name = fmt.Sprintf("%s_%x", name, h)
 		}
